@@ -201,6 +201,11 @@ func (as *adaptiveShedder) minRt() float64 {
 func (as *adaptiveShedder) overloadFactor() float64 {
 	// as.cpuThreshold must be less than cpuMax
 	factor := (cpuMax - float64(stat.CpuUsage())) / (cpuMax - float64(as.cpuThreshold))
+	if math.IsNaN(factor) {
+		// cpuThreshold == cpuMax and the cpu is at cpuMax: 0/0. Every comparison with NaN is false,
+		// highThru would never hold and nothing would be shed at full load.
+		factor = overloadFactorLowerBound
+	}
 	// at least accept 10% of acceptable requests, even cpu is highly overloaded.
 	return mathx.Between(factor, overloadFactorLowerBound, 1)
 }
